@@ -1,5 +1,6 @@
-(* util.slice_to_inclusive_slice (regenerated from source in Gen.Gen_util) equals the typed function
-   incl_typed the label-translation model uses; and what the +1 buys: the stop position is selected. *)
+(* util.slice_to_inclusive_slice (regenerated from source in Gen.Gen_util, with the step case of fix c6f9ada)
+   equals the typed function incl_typed the label-translation model uses; and what it buys: the stop
+   position is selected, walking up and walking down. *)
 Require Import SF.Prelude SF.PySlice SF.Dtype SF.PyDyn SF.Blocks SF.Select Gen.Gen_util Proofs.SliceFacts.
 
 Require Import SF.PyDynTac.
@@ -8,30 +9,42 @@ Local Opaque py_slice_indices Z.mul Z.div Z.add Z.sub Z.min Z.max Z.abs Z.opp Z.
 Lemma incl_typed_refines k off :
   slice_to_inclusive_slice (of_slice k) (PInt off) = of_slice (incl_typed k off).
 Proof.
-  destruct k as [[a|] [b|] [st|]]; unfold slice_to_inclusive_slice, incl_typed, of_slice;
+  destruct k as [[a|] [b|] [st|]]; unfold slice_to_inclusive_slice, incl_typed, incl_stop, step_up, of_slice;
     cbn [s_start s_stop s_step of_oz]; dyn_refine.
 Qed.
 
-(* what the +1 is for: on an axis of length n, the slice made inclusive selects exactly the positions
-   a .. b, the stop position b included (ascending walk) *)
 Require Import Proofs.BlocksSelect Proofs.SelectFacts Proofs.SelectLoc.
+Local Transparent Z.add Z.sub Z.mul Z.ltb Z.eqb Z.gtb Z.leb Z.geb Z.opp.
 
-Theorem inclusive_slice_includes_stop (a b n : Z) : 0 <= a -> a <= b -> b < n ->
-  exists ps, positions (incl_typed (mk_slice (Some a) (Some b) None) 0) n = Some ps /\
-             In b ps /\ (forall p, In p ps <-> a <= p <= b).
+(* on an axis of length n the slice made inclusive selects exactly the positions between a and b, b included:
+   a .. b walking up, a down to b walking down (the case the fix repaired) *)
+Theorem inclusive_slice_includes_stop (a b n : Z) : 0 <= a < n -> 0 <= b < n ->
+  (a <= b -> exists ps, positions (incl_typed (mk_slice (Some a) (Some b) None) 0) n = Some ps /\
+                        In b ps /\ (forall p, In p ps <-> a <= p <= b)) /\
+  (b <= a -> exists ps, positions (incl_typed (mk_slice (Some a) (Some b) (Some (-1))) 0) n = Some ps /\
+                        In b ps /\ (forall p, In p ps <-> b <= p <= a)).
 Proof.
-  intros Ha Hab Hb.
-  pose proof (inclusive_slice_positions (Some a) (Some b) None n ltac:(lia)
-                ltac:(intros x E; injection E as <-; lia) ltac:(intros x E; injection E as <-; lia) I) as H.
-  unfold incl_typed. cbn [s_start s_stop s_step].
-  replace (a + 0) with a by lia. replace (b + 1 + 0) with (b + 1) by lia.
-  destruct (positions (mk_slice (Some a) (Some (b + 1)) None) n) as [ps|]; [|unfold inclusive_range in H; cbn in H; discriminate].
-  unfold inclusive_range in H. cbn [Z.eqb Z.gtb Z.compare] in H. injection H as ->.
-  eexists. split; [reflexivity|].
-  assert (Hmem : forall p, In p (range_list a 1 (Z.to_nat (range_len a (b + 1) 1))) <-> a <= p <= b).
-  { intros p. rewrite range_list_In. unfold range_len. cbn [Z.ltb Z.compare].
-    replace (a <? b + 1) with true by lia. rewrite Z.div_1_r. split.
-    - intros (i & Hi & ->). lia.
-    - intros Hp. exists (Z.to_nat (p - a)). split; lia. }
-  split; [apply Hmem; lia|exact Hmem].
+  intros Ha Hb.
+  assert (Hgen : forall st, positions (incl_typed (mk_slice (Some a) (Some b) st) 0) n =
+                            match inclusive_range (Some a) (Some b) st n with Ok ps => Some ps | Err _ => None end).
+  { intros st.
+    pose proof (inclusive_slice_positions (Some a) (Some b) st n ltac:(lia)
+                  ltac:(intros x E; injection E as <-; lia) ltac:(intros x E; injection E as <-; lia)) as H.
+    unfold incl_typed. cbn [s_start s_stop s_step]. replace (a + 0) with a by lia.
+    destruct (positions (mk_slice (Some a) (incl_stop b st 0) st) n); rewrite <- H; reflexivity. }
+  split; intros Hab.
+  - rewrite Hgen. unfold inclusive_range. cbn [Z.eqb Z.gtb Z.compare]. eexists. split; [reflexivity|].
+    assert (Hmem : forall p, In p (range_list a 1 (Z.to_nat (range_len a (b + 1) 1))) <-> a <= p <= b).
+    { intros p. rewrite range_list_In. unfold range_len. cbn [Z.ltb Z.compare].
+      replace (a <? b + 1) with true by lia. rewrite Z.div_1_r. split.
+      - intros (i & Hi & ->). lia.
+      - intros Hp. exists (Z.to_nat (p - a)). split; lia. }
+    split; [apply Hmem; lia|exact Hmem].
+  - rewrite Hgen. unfold inclusive_range. cbn [Z.eqb Z.gtb Z.compare]. eexists. split; [reflexivity|].
+    assert (Hmem : forall p, In p (range_list a (-1) (Z.to_nat (range_len a (b - 1) (-1)))) <-> b <= p <= a).
+    { intros p. rewrite range_list_In. unfold range_len. cbn [Z.ltb Z.compare Z.opp].
+      replace (b - 1 <? a) with true by lia. rewrite Z.div_1_r. split.
+      - intros (i & Hi & ->). lia.
+      - intros Hp. exists (Z.to_nat (a - p)). split; lia. }
+    split; [apply Hmem; lia|exact Hmem].
 Qed.
